@@ -85,14 +85,18 @@ EOLS = {
 
 
 def join_lines(lines: Iterable[str], eol: str = 'lf', final: bool = True) -> str:
+    """eol 'crlf-cut': CRLF between lines and a bare CR at the very end (a CRLF file whose last LF is missing)"""
     lines = list(lines)
-    f = EOLS[eol]
+    f = EOLS['crlf' if eol == 'crlf-cut' else eol]
     out = []
     for i, line in enumerate(lines):
         out.append(line)
         if i + 1 < len(lines) or final:
             out.append(f(i))
-    return ''.join(out)
+    text = ''.join(out)
+    if eol == 'crlf-cut' and text.endswith('\n'):
+        text = text[:-1]
+    return text
 
 
 def sequences(alphabet: list[str], nmax: int, nmin: int = 0) -> Iterator[tuple[int, ...]]:
